@@ -98,6 +98,13 @@ func (fr *Frame) call(v ssa.Value, cc *ssa.CallCommon, st *State, ins ssa.Instru
 		return args
 	}
 	if callee == nil {
+		if val, ok := fr.vals[cc.Value]; ok && len(val.Alts) > 0 && fr.depth < 3 {
+			if fr.callAlts(v, val.Alts, cc, st) {
+				return
+			}
+		}
+	}
+	if callee == nil {
 		// dynamic call of a function value
 		fv := fr.term(cc.Value, st)
 		fr.nopanic(st, "nil", pos, not(app("=", fv.S, "0")), "call of nil function")
@@ -639,4 +646,67 @@ func (c *FnCtx) mapCard(ks Sort) string {
 		fmt.Sprintf("(assert (forall ((d %s) (k %s)) (! (= (%s (store d k true)) (ite (select d k) (%s d) (+ (%s d) 1))) :pattern ((%s (store d k true))))))", D, K, name, name, name, name),
 		fmt.Sprintf("(assert (forall ((d %s) (k %s)) (! (= (%s (store d k false)) (ite (select d k) (- (%s d) 1) (%s d))) :pattern ((%s (store d k false))))))", D, K, name, name, name, name))
 	return name
+}
+
+// callAlts: the callee is one of several known closures, selected by the path taken earlier
+// (typically `if x { f = func... } else { f = func... }`): each alternative is inlined under its
+// path condition and the resulting states are merged.
+func (fr *Frame) callAlts(v ssa.Value, alts []altFn, cc *ssa.CallCommon, st *State) bool {
+	c := fr.c
+	for _, a := range alts {
+		if !c.eng.inModule(a.fn) || a.fn.Blocks == nil || !fr.canInline(a.fn) {
+			return false
+		}
+		if len(a.fn.FreeVars) > 0 && a.clo == nil {
+			return false
+		}
+	}
+	var edges []string
+	var states []*State
+	var results [][]Term
+	for _, a := range alts {
+		s2 := st.clone()
+		s2.reach = c.define("reach", "Bool", and(st.reach, a.cond))
+		// inline into a scratch SSA value holder: results are read back from fr.vals[v]
+		fr.inline(a.fn, a.clo, cc, s2, v)
+		c.callees[a.fn.String()] = "inlined (one of several closures selected by the path)"
+		var rs []Term
+		if v != nil {
+			if val, ok := fr.vals[v]; ok {
+				if val.Tup != nil {
+					for _, t := range val.Tup {
+						rs = append(rs, t.T)
+					}
+				} else {
+					rs = append(rs, val.T)
+				}
+			}
+		}
+		edges = append(edges, s2.reach)
+		states = append(states, s2)
+		results = append(results, rs)
+	}
+	merged := c.mergeStates(edges, states)
+	*st = *merged
+	if v != nil && len(results) > 0 && len(results[0]) > 0 {
+		var out []Term
+		for i := range results[0] {
+			term := ""
+			for j := len(results) - 1; j >= 0; j-- {
+				if i >= len(results[j]) {
+					continue
+				}
+				t := results[j][i].S
+				if term == "" {
+					term = t
+				} else {
+					term = ite(edges[j], t, term)
+				}
+			}
+			r := results[0][i]
+			out = append(out, Term{c.define(fr.tag+v.Name()+"alt", r.Sort, term), r.Sort, r.Ty})
+		}
+		fr.setResult(v, out)
+	}
+	return true
 }
